@@ -2,8 +2,8 @@ import RainModel.Lemmas.LoopQuiesce
 import RainModel.Lemmas.LoopPersist
 /-!
 Quiescence at the level of `step`, `dstep`, `drun`: after every event the chain of worker completions has
-ended (`workersQuiet`), i.e. the fuel `12` of `step` never cuts a chain short — unless a verification is pending
-while `Open` fails (`Lemmas/LoopQuiesce.lean`, `Flap`), which is the one case in which the chain does not end.
+ended (`workersQuiet`), i.e. the fuel `12` of `step` never cuts a chain short — for **every** op, gate and
+parameter (since rain's fix of finding C04-F8 there is no exception: `Lemmas/LoopQuiesce.lean`).
 -/
 namespace Rain.Loop
 
@@ -11,13 +11,11 @@ namespace Rain.Loop
 abbrev handled (s : St) (p : Parked) (kn : Nat → Bool) (op : Op) : St :=
   (handle { s with sto := [], mayStart := [], closedDl := [], mayStartI := false } p kn op).1.1
 
-theorem QInv.afterHandle (s : St) (p : Parked) (kn : Nat → Bool) (op : Op) (h : Full s) (hdv : DV s)
-    (hfl : (handled s p kn op).failOpen = true → (handled s p kn op).doVerify = false) :
-    QInv (handled s p kn op) := by
+theorem QInv.afterHandle (s : St) (p : Parked) (kn : Nat → Bool) (op : Op) (h : QInv s) : QInv (handled s p kn op) := by
   have h0 : Full { s with sto := [], mayStart := [], closedDl := [], mayStartI := false } :=
-    ⟨h.life.congr (by lframe), h.comp.of_frame rfl rfl rfl rfl rfl rfl rfl rfl, h.w.frame (by wframe_eq)⟩
-  have d0 : DV { s with sto := [], mayStart := [], closedDl := [], mayStartI := false } := by dv_frame hdv
-  exact ⟨handle_full _ p kn op h0, handle_dv _ p kn op d0, hfl⟩
+    ⟨h.full.life.congr (by lframe), h.full.comp.of_frame rfl rfl rfl rfl rfl rfl rfl rfl, h.full.w.frame (by wframe_eq)⟩
+  have d0 : DV { s with sto := [], mayStart := [], closedDl := [], mayStartI := false } := by dv_frame h.dv
+  exact ⟨handle_full _ p kn op h0, handle_dv _ p kn op d0⟩
 
 theorem deliverParked_workersQuiet (m : M) (p : Parked) (h : QInv m.1) (hq : workersQuiet m.1 = true) :
     workersQuiet (deliverParked m p).1.1 = true ∧ QInv (deliverParked m p).1.1 := by
@@ -31,72 +29,22 @@ theorem deliverParked_workersQuiet (m : M) (p : Parked) (h : QInv m.1) (hq : wor
         have hr := h.full.life.running_of_peer hk
         apply runWorkers_quiet 12 _ _ (Nat.le_trans (wrank_le _) (by decide))
         exact ⟨⟨handlePieceMessage_life _ _ _ _ _ _ h.full.life hr, handlePieceMessage_comp _ _ _ _ _ _ h.full.comp,
-            handlePieceMessage_winv _ _ _ _ _ _ h.full.w hc.1⟩, by dv_frame h.dv, by simpa using h.nofl⟩
+            handlePieceMessage_winv _ _ _ _ _ _ h.full.w hc.1⟩, by dv_frame h.dv⟩
       · exact ⟨hq, h⟩
     · exact ⟨hq, h⟩
   · exact ⟨hq, h⟩
 
-/-- **After every event the workers are quiescent** — any op, any parameters, any parked block — from a
-state of the invariants, unless the handler leaves a verification pending while `Open` fails. -/
-theorem step_quiet (s : St) (p : Parked) (kn : Nat → Bool) (op : Op) (h : Full s) (hdv : DV s)
-    (hfl : (handled s p kn op).failOpen = true → (handled s p kn op).doVerify = false) :
-    workersQuiet (step s p kn op).1.st = true := by
-  have h1 := QInv.afterHandle s p kn op h hdv hfl
+/-- **After every event the workers are quiescent** — any op, any parameters, any gates, any parked block —
+and the invariants hold again. -/
+theorem step_quiet (s : St) (p : Parked) (kn : Nat → Bool) (op : Op) (h : QInv s) :
+    workersQuiet (step s p kn op).1.st = true ∧ QInv (step s p kn op).1.st := by
+  have h1 := QInv.afterHandle s p kn op h
   obtain ⟨q2, h2⟩ := runWorkers_quiet 12 (handle { s with sto := [], mayStart := [], closedDl := [], mayStartI := false } p kn op).1
     h1 (Nat.le_trans (wrank_le _) (by decide))
   rw [step_st]
   split
-  · exact (deliverParked_workersQuiet _ _ h2 q2).1
-  · exact q2
-
-/-! ### two sufficient conditions on the event -/
-
-/-- The event does not switch the `failOpen` gate on. -/
-def Op.setsFailOpen : Op → Bool
-  | .gate .failOpen true => true
-  | _ => false
-
-theorem handled_failOpen (s : St) (p : Parked) (kn : Nat → Bool) (op : Op) (hop : op.setsFailOpen = false)
-    (hf : s.failOpen = false) : (handled s p kn op).failOpen = false := by
-  unfold handled handle
-  repeat' split
-  all_goals first
-    | (simp [Op.setsFailOpen] at hop; done)
-    | (simpa using hf)
-    | (next heq => have hm := congrArg Prod.fst heq; simp only at hm; rw [← hm]; simpa using hf)
-    | (rename_i _ on _; cases on <;> simp_all [Op.setsFailOpen])
-
-theorem step_failOpen_false (s : St) (p : Parked) (kn : Nat → Bool) (op : Op) (hop : op.setsFailOpen = false)
-    (hf : s.failOpen = false) : (step s p kn op).1.st.failOpen = false := by
-  rw [step_st]
-  split
-  · simpa using handled_failOpen s p kn op hop hf
-  · simpa using handled_failOpen s p kn op hop hf
-
-theorem handled_doVerify_false (s : St) (p : Parked) (kn : Nat → Bool) (op : Op) (hop : op.isVerify = false)
-    (hd : s.doVerify = false) : (handled s p kn op).doVerify = false := by
-  unfold handled handle
-  repeat' split
-  all_goals first
-    | (simp [Op.isVerify] at hop; done)
-    | (simpa using hd)
-    | (next heq => have hm := congrArg Prod.fst heq; simp only at hm; rw [← hm]; simpa using hd)
-
-theorem step_doVerify_false (s : St) (p : Parked) (kn : Nat → Bool) (op : Op) (hop : op.isVerify = false)
-    (hd : s.doVerify = false) : (step s p kn op).1.st.doVerify = false := by
-  rw [step_st]
-  have h1 := runWorkers_doVerify_false 12 _ (handled_doVerify_false s p kn op hop hd)
-  split
-  · exact deliverParked_doVerify_false _ _ h1
-  · exact h1
-
-theorem step_quiet_of_failOpen_off (s : St) (p : Parked) (kn : Nat → Bool) (op : Op) (h : Full s) (hdv : DV s)
-    (hop : op.setsFailOpen = false) (hf : s.failOpen = false) : workersQuiet (step s p kn op).1.st = true :=
-  step_quiet s p kn op h hdv (fun hh => by rw [handled_failOpen s p kn op hop hf] at hh; cases hh)
-
-theorem step_quiet_of_no_verify (s : St) (p : Parked) (kn : Nat → Bool) (op : Op) (h : Full s)
-    (hop : op.isVerify = false) (hd : s.doVerify = false) : workersQuiet (step s p kn op).1.st = true :=
-  step_quiet s p kn op h (DV.of_false hd) (fun _ => handled_doVerify_false s p kn op hop hd)
+  · exact deliverParked_workersQuiet _ _ h2 q2
+  · exact ⟨q2, h2⟩
 
 /-! ### the implementation's choices do not touch the workers -/
 
@@ -121,96 +69,29 @@ structure QRun (s : St) : Prop where
   dv : DV s
   quiet : workersQuiet s = true
 
-theorem dstep_qrun_failOpen_off (sp : St × Parked) (e : Ev) (h : QRun sp.1) (hf : sp.1.failOpen = false)
-    (hop : e.op.setsFailOpen = false) (hs : e.sane sp) : QRun (dstep sp e).1 ∧ (dstep sp e).1.failOpen = false := by
-  refine ⟨⟨dstep_np sp e h.np hs, dstep_dv sp e h.dv, ?_⟩, ?_⟩
-  · rw [dstep_workersQuiet]
-    exact step_quiet_of_failOpen_off sp.1 sp.2 e.known e.op h.np.full h.dv hop hf
-  · unfold dstep
-    simpa using step_failOpen_false sp.1 sp.2 e.known e.op hop hf
+theorem QRun.qinv {s : St} (h : QRun s) : QInv s := ⟨h.np.full, h.dv⟩
 
-theorem drun_qrun_failOpen_off (evs : List Ev) (sp : St × Parked) (h : QRun sp.1) (hf : sp.1.failOpen = false)
-    (hop : ∀ e ∈ evs, e.op.setsFailOpen = false) (hs : drunSane sp evs) : QRun (drun sp evs).1 := by
+theorem step_qrun (s : St) (p : Parked) (kn : Nat → Bool) (op : Op) (h : QRun s) : QRun (step s p kn op).1.st :=
+  ⟨step_np s p kn op h.np, step_dv s p kn op h.dv, (step_quiet s p kn op h.qinv).1⟩
+
+theorem dstep_qrun (sp : St × Parked) (e : Ev) (h : QRun sp.1) (hs : e.sane sp) : QRun (dstep sp e).1 :=
+  ⟨dstep_np sp e h.np hs, dstep_dv sp e h.dv, by
+    rw [dstep_workersQuiet]; exact (step_quiet sp.1 sp.2 e.known e.op h.qinv).1⟩
+
+theorem drun_qrun (evs : List Ev) (sp : St × Parked) (h : QRun sp.1) (hs : drunSane sp evs) : QRun (drun sp evs).1 := by
   induction evs generalizing sp with
   | nil => exact h
-  | cons e evs ih =>
-    obtain ⟨h1, f1⟩ := dstep_qrun_failOpen_off sp e h hf (hop e (List.mem_cons_self ..)) hs.1
-    exact ih _ h1 f1 (fun x hx => hop x (List.mem_cons_of_mem _ hx)) hs.2
+  | cons e evs ih => exact ih _ (dstep_qrun sp e h hs.1) hs.2
 
-theorem dstep_qrun_no_verify (sp : St × Parked) (e : Ev) (h : QRun sp.1) (hd : sp.1.doVerify = false)
-    (hop : e.op.isVerify = false) (hs : e.sane sp) : QRun (dstep sp e).1 ∧ (dstep sp e).1.doVerify = false := by
-  refine ⟨⟨dstep_np sp e h.np hs, dstep_dv sp e h.dv, ?_⟩, ?_⟩
-  · rw [dstep_workersQuiet]
-    exact step_quiet_of_no_verify sp.1 sp.2 e.known e.op h.np.full hop hd
-  · unfold dstep
-    simpa using step_doVerify_false sp.1 sp.2 e.known e.op hop hd
-
-theorem drun_qrun_no_verify (evs : List Ev) (sp : St × Parked) (h : QRun sp.1) (hd : sp.1.doVerify = false)
-    (hop : ∀ e ∈ evs, e.op.isVerify = false) (hs : drunSane sp evs) : QRun (drun sp evs).1 := by
-  induction evs generalizing sp with
-  | nil => exact h
-  | cons e evs ih =>
-    obtain ⟨h1, f1⟩ := dstep_qrun_no_verify sp e h hd (hop e (List.mem_cons_self ..)) hs.1
-    exact ih _ h1 f1 (fun x hx => hop x (List.mem_cons_of_mem _ hx)) hs.2
-
-theorem step_qrun_no_verify (s : St) (p : Parked) (kn : Nat → Bool) (op : Op) (h : QRun s) (hd : s.doVerify = false)
-    (hop : op.isVerify = false) : QRun (step s p kn op).1.st ∧ (step s p kn op).1.st.doVerify = false :=
-  ⟨⟨step_np s p kn op h.np, step_dv s p kn op h.dv, step_quiet_of_no_verify s p kn op h.np.full hop hd⟩,
-    step_doVerify_false s p kn op hop hd⟩
-
-theorem srun_qrun_no_verify (ops : List (Op × (Nat → Bool))) (sp : St × Parked) (h : QRun sp.1)
-    (hd : sp.1.doVerify = false) (hop : ∀ o ∈ ops, o.1.isVerify = false) : QRun (srun sp ops).1 := by
+theorem srun_qrun (ops : List (Op × (Nat → Bool))) (sp : St × Parked) (h : QRun sp.1) : QRun (srun sp ops).1 := by
   induction ops generalizing sp with
   | nil => exact h
-  | cons o ops ih =>
-    obtain ⟨h1, d1⟩ := step_qrun_no_verify sp.1 sp.2 o.2 o.1 h hd (hop o (List.mem_cons_self ..))
-    exact ih _ h1 d1 (fun x hx => hop x (List.mem_cons_of_mem _ hx))
+  | cons o ops ih => exact ih _ (step_qrun sp.1 sp.2 o.2 o.1 h)
 
 theorem InitLike.qrun {s : St} (h : InitLike s) (hp : s.panicked = none) (hw : s.writing = none)
-    (hc : s.cfg.blocksHaveData = true) (hd : s.doVerify = false) : QRun s := by
-  refine ⟨h.np hp hw hc, DV.of_false hd, ?_⟩
+    (hd : s.doVerify = false) : QRun s := by
+  refine ⟨h.np hp (noFuture_of_none hw), DV.of_false hd, ?_⟩
   unfold workersQuiet workersPending
   simp [h.stopAnn, h.allocator, h.verifier, hw]
-
-/-! ### the livelock, at the level of `step` -/
-
-theorem deliverParked_of_no_peers (m : M) (p : Parked) (h : m.1.peers = []) : (deliverParked m p).1 = m := by
-  unfold deliverParked
-  split
-  · split
-    · simp [St.findPeer, h]
-    · rfl
-  · rfl
-
-/-- Once in the restart loop, waiting (`nop` events, each running 12 more links of the chain) does not end it. -/
-theorem flap_step_nop (s : St) (p : Parked) (kn : Nat → Bool) (h : Flap s) : Flap (step s p kn .nop).1.st := by
-  have h0 : Flap (handled s p kn .nop) := by
-    obtain ⟨a1, a2, a3, a4, a5, a6, a7, a8, a9, a10, a11⟩ := h
-    exact ⟨a1, a2, a3, a4, a5, a6, a7, a8, a9, a10, a11⟩
-  have h1 := flap_forever 12 (handle { s with sto := [], mayStart := [], closedDl := [], mayStartI := false } p kn .nop).1 h0
-  rw [step_st]
-  split
-  · rw [deliverParked_of_no_peers _ _ h1.peers]; exact h1
-  · exact h1
-
-/-- The verify command on a stopped torrent whose metadata is known, with `Open` failing and the trackers
-answering: the restart loop is entered (and the fuel of the step runs out in it). -/
-theorem verify_failOpen_flaps (s : St) (p : Parked) (kn : Nat → Bool) (h : Life s) (he : s.errC = false)
-    (hi : s.info = true) (hp : s.panicked = none) (hf : s.failOpen = true) (hh : s.stopHang = false) :
-    Flap (step s p kn .verify).1.st := by
-  obtain ⟨i1, i2, i3, i4, i5, i6, i7, i8⟩ := h.idle (Or.inl he)
-  have hst : ∀ x : St, x.errC = false → x.status = .stopped := fun x hx => (status_stopped_iff x).2 hx
-  have h0 : Flap (handled s p kn .verify) := by
-    simp only [handled, handle, onSt_fst]
-    unfold handleVerifyCommand
-    simp only [onSt_fst]
-    rw [if_pos (hst _ (by simpa using he))]
-    unfold startCore
-    constructor <;> simp [he, hi, i1, i2, i3, i6, hp, hf, hh]
-  have h1 := flap_forever 12 (handle { s with sto := [], mayStart := [], closedDl := [], mayStartI := false } p kn .verify).1 h0
-  rw [step_st]
-  split
-  · rw [deliverParked_of_no_peers _ _ h1.peers]; exact h1
-  · exact h1
 
 end Rain.Loop
